@@ -170,9 +170,9 @@ func run(ctx *core.Ctx) error {
 	ctx.Ev.Assume("harness/indep/strict is a faithful strict reading of ISO 32000 7.2-7.5 (trusted observer; it shares no code with go-pdf); encrypted files are decrypted by harness/indep/secure")
 	// the design model: reachable closed states of PdfWriter satisfy the
 	// abstract well-formedness invariants (shared with C02)
-	kinds := []string{"q"} // MaxOps 4, two value ids
+	kinds := []string{"r", "q"} // MaxOps 3 with two value ids, MaxOps 4 with one
 	if ctx.Thorough() {
-		kinds = []string{"q", "t"} // + MaxOps 5 with one value id
+		kinds = []string{"u", "t"} // MaxOps 4 with two value ids, MaxOps 5 with one
 	}
 	if os.Getenv("VERIF_C03_ONLY") == "giant" { // developer switch: time this part alone
 		return giantObjectStreams(ctx)
@@ -180,7 +180,7 @@ func run(ctx *core.Ctx) error {
 	for _, kind := range kinds {
 		for _, f := range c02.Families {
 			if _, err := ctx.MustHold(core.TLCOpts{Dir: "file", Module: "PdfWriter", Cfg: "MC_PdfWriter_" + kind + "_" + f.String() + ".cfg", Workers: 12,
-				Timeout: ctx.Dur(8, 30), Constants: fmt.Sprintf("MaxNum=3, MaxMembers=2, OBJSTM=%v, SEEKABLE=%v; q: Vals={a,b}, MaxOps=4; t: Vals={a}, MaxOps=5", f.ObjStm, f.Seekable)}); err != nil {
+				Timeout: ctx.Dur(8, 30), Constants: fmt.Sprintf("MaxNum=3, MaxMembers=2, OBJSTM=%v, SEEKABLE=%v; r: Vals={a,b}, MaxOps=3; q: Vals={a}, MaxOps=4; u: Vals={a,b}, MaxOps=4; t: Vals={a}, MaxOps=5", f.ObjStm, f.Seekable)}); err != nil {
 				return err
 			}
 		}
